@@ -9,7 +9,10 @@ CLAIMED = {
                     "verdicts is covered as far as the listed functions go.",
             "note": COMMON_NOTE + "Regex matching is an uninterpreted relation; reshape_failure_cases is opaque."},
     "C18": {"text": "Environment parsing, context save/override/restore on every exit of an arbitrary with-body (generator split at the yield), the scope wrapper "
-                    "skip rule, report filtering and the polars depth default are proved for all option values / all depths.",
+                    "skip rule, report filtering and the polars depth default are proved for all option values / all depths; the kill switch "
+                    "(validation disabled -> argument returned, no back end looked up) at every public validate of the pandas and polars APIs; structural: every core check "
+                    "of both back ends (resolved through the MRO of each concrete back-end class) carries exactly one scope and that scope is the declared scope of the reason "
+                    "codes it reports; call-site obligation that parser-stage errors respect the depth (refuted: known finding).",
             "note": COMMON_NOTE + "The with-body is an arbitrary effect on the context configuration; copy.copy model."},
     "C19": {"text": "Alias constructors are proved to be exactly one call of the canonical constructor with the same arguments; ignore_na/element_wise/"
                     "n_failure_cases/raise_warning semantics of the pandas check back end are proved for all series and option values.",
@@ -37,14 +40,20 @@ CLAIMED = {
             "note": COMMON_NOTE + "Which exceptions library operations raise is declared per model; an undeclared library exception is outside the claim."},
     "C07": {"text": "Decides the sufficient condition data-race freedom on pandera state: the validate call graph is re-verified with the strict frame (no write, not even "
                     "a reverted one, to schema objects or module globals). The three writes that exist are refuted and listed as known findings with deterministic "
-                    "callback-gated two-thread replays; everything else is proved. Schedules themselves are not enumerated.",
+                    "callback-gated two-thread replays; everything else is proved. Lazy back-end registration: nothing shared is written before the last register_backend "
+                    "call (publish order), every declared type gets its back ends, register_backend is an idempotent publish; writes to live module-level containers of pandera "
+                    "are tracked. Schedules themselves are not enumerated.",
             "note": COMMON_NOTE + "pandas/polars/numpy are assumed thread-compatible on distinct data objects; liveness and deadlock are out of reach of contracts."},
     "C08": {"text": "All polars built-in checks are proved against the same spec functions as their pandas twins, and for the 9 comparison/membership checks the REAL "
                     "pandas and polars check back ends are executed side by side symbolically and proved to reach the same verdict for every column, bounds and "
-                    "ignore_na=True (ignore_na=False is refuted: known finding).",
-            "note": COMMON_NOTE + "polars expression semantics (Kleene logic, all() ignoring nulls) are axioms of pyvc/theories/polars_lite.py; twin container pipelines and parsed-output equality are not under contract."},
+                    "ignore_na=True (ignore_na=False is refuted: known finding). Container level: collect_column_info -> strict_filter_columns -> check_column_presence of BOTH "
+                    "back ends against one documented spec of strict / 'filter' / ordered / required / add_missing_columns, for all option values over all column layouts "
+                    "with <= 3 declared and <= 3 frame columns (shape-bounded, options symbolic).",
+            "note": COMMON_NOTE + "polars expression semantics (Kleene logic, all() ignoring nulls) are axioms of pyvc/theories/polars_lite.py; the container twins are bounded in the "
+                    "column layout (148 layouts, stated in every obligation note), regex columns excluded; parsed-output equality across back ends is not under contract."},
     "C09": {"text": "DataType.check predicates over the live class lattice with symbolic widths, Engine.dtype resolution order for a generic engine (symbolic equivalents table), "
-                    "engine-specific check/dtype entry points, and an exhaustive structural closure over every registered key of the numpy/pandas/polars/pyspark engines.",
+                    "engine-specific check/dtype entry points, the 27 from_parametrized_dtype converters (every parameter of the native type is forwarded, for all native objects), "
+                    "and an exhaustive structural closure over every registered key of the numpy/pandas/polars/pyspark engines.",
             "note": COMMON_NOTE + "Parametrised constructors (time zones, units, categories, decimal precision) are bounded stand-ins (listed under bounded, not counted)."},
     "C10": {"text": "The wrappers are proved: try_coerce (pandas, numpy) returns coerce's result, propagates/wraps errors into a ParserError carrying exactly the "
                     "element-wise failure cases; numpy_pandas_coercible is element-wise 'coerce_value does not raise'; schema-level ParserError -> "
@@ -62,7 +71,8 @@ CLAIMED = {
             "note": COMMON_NOTE + "yaml/json/black/exec are assumed (31 theory axioms replayed on the real libraries); schema shapes 0-2 columns, no index / Index / MultiIndex; from_yaml's file handling is a bounded stand-in."},
     "C13": {"text": "The 14 check strategies are proved against the C01 spec functions (support of the result inside dtype domain and check meaning, chained or base) for "
                     "int64/float64/str; field_element_strategy's chaining loop with the invariant support(elements) within the intersection of the checks seen; flag flow of the "
-                    "series/index/column assembly and schema strategy entry points; structural dispatcher table.",
+                    "series/index/column assembly and schema strategy entry points; the post-processing pipeline of dataframe_strategy (custom checks without strategy are "
+                    "evaluated on the frame that is emitted, the index component is attached; assembly call abstracted to an arbitrary base strategy); structural dispatcher table.",
             "note": COMMON_NOTE + "hypothesis strategies are modelled by their support (pyvc/theories/hypothesis_lite.py); data_frames/multiindex assembly is a bounded stand-in."},
     "C14": {"text": "Statistics inference, statistics->checks, schema construction and the check serialisation pipeline are proved over all in-quantifier dtypes; lemma: the inferred "
                     "bounds admit the data and are attained.",
